@@ -1058,8 +1058,10 @@ type link struct {
 	deep    bool        // the prop that pg items set: no further page is included below
 	kprop   []bool      // values of the prop k handed down by the include tags being expanded
 	arrived map[int]int // v-for+v-once elements: how often the element itself was arrived at
-	// what the layout chain hands on from the page: contents of its #ph / v-slot:pf templates
-	ph, pf []Item
+	// what the layout chain hands on from the page: contents of its #ph / v-slot:pf templates, and the
+	// identity (see file) of the page file they are written in
+	ph, pf   []Item
+	pageFile string
 	// bookkeeping for the regions of known findings
 	inherited   int             // > 0 while walking handed-on page content
 	inhReached  map[int]bool    // marked elements of handed-on content reached in this link
@@ -1223,7 +1225,7 @@ func (l *link) walk(items []Item) {
 			}
 			if len(content) > 0 {
 				old, oldFile := l.scope, l.file
-				l.scope, l.file = nil, "" // the content is written in the page
+				l.scope, l.file = nil, l.pageFile // the content is written in the page file being rendered
 				l.inherited++
 				l.walk(content)
 				l.inherited--
@@ -1270,6 +1272,10 @@ func expect(c *Case, s Step, src int) expectation {
 	var e expectation
 	p := c.Pages[src]
 	l := newLink(c)
+	rootFile := ""
+	if src != s.P && !rootless(s.Entry) {
+		rootFile = "\x00" + pageName(s.P)
+	}
 	if rootless(s.Entry) {
 		l.file = "\x00root" // the root template is not the page file
 	} else if src != s.P {
@@ -1295,7 +1301,7 @@ func expect(c *Case, s Step, src int) expectation {
 		for name != "" {
 			lay := c.Layouts[name]
 			l := newLink(c) // each link of the chain is a render of its own
-			l.ph, l.pf = p.Ph, p.Pf
+			l.ph, l.pf, l.pageFile = p.Ph, p.Pf, rootFile
 			l.walk(lay.Head)
 			l.walk(lay.Before)
 			fmt.Fprintf(&l.sb, "m%s(%s)", name, out)
